@@ -570,3 +570,149 @@ def c19_set_semantics(tier, rng):
             return viol({"L1": L1, "L2": L2}, p)
     return {"cases": cases, "bound": "all pairs of interval lists over 1..%d (incl. touching blocks), all tail positions, random large pairs" % U,
             "exhaustive": True, "violations": [], "samples": [{"L1": [(1, 2), (4, 4)], "L2": [(2, 5)]}]}
+
+
+# ---- two-pointer sweeps over two sorted interval lists: intersection size as the sum of pairwise intersections ---------------------------
+@spec("tuple[int,int], tuple[int,int] -> int")
+def ilen(a, b):
+    # number of positions the two intervals share
+    return max(0, min(a[1], b[1]) - max(a[0], b[0]) + 1)
+
+
+@spec("list[tuple[int,int]], int, tuple[int,int] -> int")
+def row(L, n, b):
+    # positions of b covered by the first n intervals of L (disjoint, so the sum is the size of the intersection)
+    return 0 if n <= 0 else row(L, n - 1, b) + ilen(b, L[n - 1])
+
+
+@spec("list[tuple[int,int]], int, list[tuple[int,int]] -> int")
+def isum(L1, n, L2):
+    # | positions(first n intervals of L1)  &  positions(L2) |
+    return 0 if n <= 0 else isum(L1, n - 1, L2) + row(L2, len(L2), L1[n - 1])
+
+
+lemma("slen_pos", {"L": IVS, "n": "int"}, props=["C19"], requires=["WF(L)", "0 <= n <= len(L)"], ensures=["slen(L, n) >= n"],
+      induct="n", base="0")
+
+lemma("row_zero_before", {"L": IVS, "m": "int", "b": IV}, props=["C19"],
+      # everything among the first m intervals ends before b starts
+      requires=["WF(L)", "0 <= m <= len(L)", "m == 0 or L[m - 1][1] < b[0]"], ensures=["row(L, m, b) == 0"], induct="m", base="0")
+
+lemma("row_tail_zero", {"L": IVS, "m": "int", "n": "int", "b": IV}, props=["C19"],
+      # everything from index m on starts after b ends
+      requires=["WF(L)", "0 <= m <= n <= len(L)", "m == len(L) or L[m][0] > b[1]"], ensures=["row(L, n, b) == row(L, m, b)"],
+      induct="n", base="m")
+
+lemma("isum_rest_zero", {"L1": IVS, "m": "int", "n": "int", "L2": IVS}, props=["C19"],
+      # L2 ends before the m-th interval of L1 starts: the remaining intervals of L1 add nothing
+      requires=["WF(L1)", "WF(L2)", "0 <= m <= n <= len(L1)", "len(L2) == 0 or m == len(L1) or L2[len(L2) - 1][1] < L1[m][0]"],
+      ensures=["isum(L1, n, L2) == isum(L1, m, L2)"], induct="n", base="m",
+      uses=["row_zero_before(L2, len(L2), L1[n - 1])"])
+
+
+def _gen_two_lists(rng, n):
+    def rl():
+        out, p = [], rng.randint(0, 5)
+        for _i in range(rng.randint(1, 5)):
+            a = p + rng.randint(1, 6)
+            b = a + rng.randint(0, 9)
+            out.append((a, b))
+            p = b
+        return out
+    for _ in range(n):
+        yield {"read_range_list": rl(), "isoform_range_list": rl()}
+
+
+contract(C + "read_coverage_fraction", {"read_range_list": IVS, "isoform_range_list": IVS}, returns="real", props=["C19"],
+         requires=["WF(read_range_list)", "WF(isoform_range_list)", "len(read_range_list) >= 1"],
+         # | read & isoform | / | read | on the underlying sets of positions
+         ensures=["result == isum(read_range_list, len(read_range_list), isoform_range_list) / slen(read_range_list, len(read_range_list))"],
+         loops={0: {"inv": [
+             "0 <= pos1 <= len(read_range_list)", "0 <= pos2 <= len(isoform_range_list)",
+             "intersection == isum(read_range_list, pos1, isoform_range_list) + "
+             "(row(isoform_range_list, pos2, read_range_list[pos1]) if pos1 < len(read_range_list) else 0)",
+             "pos2 == 0 or pos1 == len(read_range_list) or isoform_range_list[pos2 - 1][1] <= read_range_list[pos1][1]",
+             "pos1 == 0 or pos2 == len(isoform_range_list) or read_range_list[pos1 - 1][1] <= isoform_range_list[pos2][1]"],
+             "exit_hints": ["isum_rest_zero(read_range_list, pos1 + 1, len(read_range_list), isoform_range_list)",
+                            "row_tail_zero(isoform_range_list, pos2, len(isoform_range_list), read_range_list[pos1])"]}},
+         hints={"after:block2": ["row_tail_zero(isoform_range_list, pos2 + 1, len(isoform_range_list), block1)",
+                                 "row_tail_zero(isoform_range_list, pos2, len(isoform_range_list), block1)",
+                                 "row_zero_before(isoform_range_list, pos2, read_range_list[pos1 + 1])"],
+                "after:read_length": ["slen_pos(read_range_list, len(read_range_list))"]},
+         gen=_gen_two_lists, canary="result == 1", timeout=30000)
+
+
+lemma("row_bound", {"L": IVS, "n": "int", "b": IV}, props=["C19"],
+      # the first n (disjoint, sorted) intervals cover at most the part of b that lies at or before the end of the n-th
+      requires=["WF(L)", "0 <= n <= len(L)", "b[0] <= b[1]"],
+      ensures=["row(L, n, b) >= 0", "row(L, n, b) <= (0 if n == 0 else max(0, min(b[1], L[n - 1][1]) - b[0] + 1))"], induct="n", base="0")
+
+lemma("isum_le", {"L1": IVS, "n": "int", "L2": IVS}, props=["C19"],
+      requires=["WF(L1)", "WF(L2)", "0 <= n <= len(L1)"], ensures=["0 <= isum(L1, n, L2) <= slen(L1, n)"], induct="n", base="0",
+      uses=["row_bound(L2, len(L2), L1[n - 1])"])
+
+_L1, _L2 = "sorted_range_list1", "sorted_range_list2"
+_N1, _N2 = "len(sorted_range_list1)", "len(sorted_range_list2)"
+_LEN1 = "(%s[pos1][1] - %s[pos1][0] + 1)" % (_L1, _L1)
+_LEN2 = "(%s[pos2][1] - %s[pos2][0] + 1)" % (_L2, _L2)
+_JACC_INV = [
+    "0 <= pos1 <= %s" % _N1, "0 <= pos2 <= %s" % _N2, "len(included1) == %s" % _N1, "len(included2) == %s" % _N2,
+    "all(included1[j] == 0 or included1[j] == 1 for j in range(%s))" % _N1, "all(included2[j] == 0 or included2[j] == 1 for j in range(%s))" % _N2,
+    "all(included1[j] == 0 for j in range(pos1 + 1, %s))" % _N1, "all(included2[j] == 0 for j in range(pos2 + 1, %s))" % _N2,
+    # at most one of the two current blocks has been counted already, and a counted one starts no later than the other
+    "pos1 == %s or pos2 == %s or included1[pos1] == 0 or included2[pos2] == 0" % (_N1, _N2),
+    "pos1 == %s or pos2 == %s or included2[pos2] == 0 or %s[pos1][0] >= %s[pos2][0]" % (_N1, _N2, _L1, _L2),
+    "pos1 == %s or pos2 == %s or included1[pos1] == 0 or %s[pos2][0] >= %s[pos1][0]" % (_N1, _N2, _L2, _L1),
+    # intersection: all finished rows of list 1 plus the part of the current row already swept
+    "intersection == isum(%s, pos1, %s) + (row(%s, pos2, %s[pos1]) if pos1 < %s else 0)" % (_L1, _L2, _L2, _L1, _N1),
+    "pos2 == 0 or pos1 == %s or %s[pos2 - 1][1] <= %s[pos1][1]" % (_N1, _L2, _L1),
+    "pos1 == 0 or pos2 == %s or %s[pos1 - 1][1] <= %s[pos2][1]" % (_N2, _L1, _L2),
+    # union: everything passed, minus what was counted twice, plus the current blocks if they have been counted in full already
+    "union == slen(%s, pos1) + slen(%s, pos2) - intersection + (%s if pos1 < %s and included1[pos1] == 1 else 0) + "
+    "(%s if pos2 < %s and included2[pos2] == 1 else 0)" % (_L1, _L2, _LEN1, _N1, _LEN2, _N2),
+]
+
+
+# the two clean-up loops: the sweep facts about the current row are no longer needed (the intersection is complete)
+_JACC_TAIL = [i for i in _JACC_INV if not i.startswith("intersection ==") and "[pos2 - 1][1] <=" not in i and "[pos1 - 1][1] <=" not in i]
+
+
+def _gen_jacc(rng, n):
+    for d in _gen_two_lists(rng, n):
+        yield {_L1: d["read_range_list"], _L2: d["isoform_range_list"]}
+
+
+contract(C + "jaccard_similarity", {_L1: IVS, _L2: IVS}, returns="real", props=["C19"],
+         requires=["WF(%s)" % _L1, "WF(%s)" % _L2, "%s >= 1" % _N1],
+         # |A & B| / |A | B| on the underlying sets of positions, with |A | B| = |A| + |B| - |A & B|
+         ensures=["result == isum(%s, %s, %s) / (slen(%s, %s) + slen(%s, %s) - isum(%s, %s, %s))" % (_L1, _N1, _L2, _L1, _N1, _L2, _N2, _L1, _N1, _L2)],
+         loops={0: {"inv": _JACC_INV,
+                    "exit_hints": ["isum_rest_zero(%s, pos1 + 1, %s, %s)" % (_L1, _N1, _L2),
+                                   "row_tail_zero(%s, pos2, %s, %s[pos1])" % (_L2, _N2, _L1)]},
+                1: {"inv": _JACC_TAIL + ["pos1 == %s or pos2 == %s" % (_N1, _N2), "intersection == isum(%s, %s, %s)" % (_L1, _N1, _L2)]},
+                2: {"inv": _JACC_TAIL + ["pos1 == %s" % _N1, "intersection == isum(%s, %s, %s)" % (_L1, _N1, _L2)],
+                    "exit_hints": ["slen_pos(%s, %s)" % (_L1, _N1), "slen_pos(%s, %s)" % (_L2, _N2), "isum_le(%s, %s, %s)" % (_L1, _N1, _L2),
+                                   "isum_rest_zero(%s, 0, %s, %s)" % (_L1, _N1, _L2)]}},
+         hints={"after:block2": ["row_tail_zero(%s, pos2 + 1, %s, block1)" % (_L2, _N2),
+                                 "row_tail_zero(%s, pos2, %s, block1)" % (_L2, _N2),
+                                 "row_zero_before(%s, pos2, %s[pos1 + 1])" % (_L2, _L1)],
+                "exit": ["slen_pos(%s, %s)" % (_L1, _N1), "slen_pos(%s, %s)" % (_L2, _N2), "isum_le(%s, %s, %s)" % (_L1, _N1, _L2),
+                         "isum_rest_zero(%s, 0, %s, %s)" % (_L1, _N1, _L2)]},
+         gen=_gen_jacc, canary="result == 1", timeout=40000)
+
+
+@spec("list[tuple[int,int]], int, tuple[int,int] -> int")
+def osum(L, n, region):
+    # positions of the first n intervals that lie outside the region: |e| - |e & region| summed
+    return 0 if n <= 0 else osum(L, n - 1, region) + (L[n - 1][1] - L[n - 1][0] + 1) - ilen(L[n - 1], region)
+
+
+contract(C + "extra_exon_percentage", {"isoform_region": IV, "read_exons": IVS}, returns="real", props=["C19"],
+         requires=["WF(read_exons)", "len(read_exons) >= 1", "isoform_region[0] <= isoform_region[1]"],
+         # fraction of the read's aligned positions that lie outside the (extended) isoform region
+         ensures=["result == osum(read_exons, len(read_exons), isoform_region) / slen(read_exons, len(read_exons))"],
+         loops={0: {"inv": ["total_read_len == slen(read_exons, _k0)", "outside_read_len == osum(read_exons, _k0, isoform_region)"],
+                    "exit_hints": ["slen_pos(read_exons, len(read_exons))"]}},
+         gen=lambda rng, n: ({"isoform_region": (a, a + rng.randint(0, 30)), "read_exons": d["read_range_list"]}
+                             for d in _gen_two_lists(rng, n) for a in [rng.randint(0, 30)]),
+         canary="result == 0")
